@@ -70,6 +70,17 @@ for f in sorted(os.listdir(os.path.join(root, "tinyflux"))):
             for m in st.body:
                 if isinstance(m, ast.FunctionDef) and m.name.startswith("_") and not m.name.startswith("__"):
                     sigs.append(f"sig {st.name}.{m.name}={_fingerprint(m)}")
+decos = []
+for f in sorted(os.listdir(os.path.join(root, "tinyflux"))):
+    if f != "database.py":
+        continue
+    tree = ast.parse(open(os.path.join(root, "tinyflux", f), encoding="utf-8").read())
+    for st in tree.body:
+        if isinstance(st, ast.ClassDef) and st.name == "TinyFlux":
+            for m in st.body:
+                if isinstance(m, ast.FunctionDef) and not m.name.startswith("_"):
+                    ds = [ast.unparse(d) for d in m.decorator_list]
+                    decos.append(f"deco TinyFlux.{m.name}={','.join(ds)}")
 here = os.path.dirname(os.path.dirname(os.path.abspath(__file__)))
 with open(os.path.join(here, "known_functions.txt"), "w") as fh:
     fh.write("# inventory of the validated tree (tools/make_inventory.py); see tfstatic/inline.py\n")
@@ -78,5 +89,7 @@ with open(os.path.join(here, "known_functions.txt"), "w") as fh:
     for a in sorted(set(attrs)):
         fh.write(a + "\n")
     for a in sorted(set(sigs)):
+        fh.write(a + "\n")
+    for a in sorted(set(decos)):
         fh.write(a + "\n")
 print(len(names), "names")
